@@ -55,7 +55,7 @@ def handlers : List (String → List String → Option String) :=
    RF.Driver.MacroFmt.handle,
    RF.Driver.MissedSpans.handle,
    RF.Driver.OptRewrites.handle,
-   RF.Driver.Vertical.handle]
+   RF.Driver.Vertical.handle,
    RF.Driver.Budgets.handle]
 
 def dispatch (line : String) : String :=
